@@ -319,60 +319,69 @@ func c04LeafrefOverrides(w *World, r *Report) {
 // of a name is tested by LexCommon before LexName is called.
 func c04LocalPartStart(w *World, r *Report) {
 	n := 0
+	sym := NewSym(w)
+	sym.Expand = false
 	for _, key := range []string{"xpath", "xpath/grammars/leafref"} {
 		p := w.Pkg(key)
 		for _, fd := range funcDecls(p) {
 			if fd.Name.Name != "LexName" || fd.Body == nil {
 				continue
 			}
+			tf, _ := p.TypesInfo.Defs[fd.Name].(*types.Func)
+			lf := w.SSAFunc(tf)
+			if lf == nil || len(lf.Params) < 2 {
+				continue
+			}
 			k := 0
-			ast.Inspect(fd.Body, func(x ast.Node) bool {
-				ce, ok := x.(*ast.CallExpr)
-				if !ok {
-					return true
+			// the token may be built in LexName or in a helper it hands the work to
+			callsWithCtx(lf, 2, func(c *ssa.Call, ctx *symCtx) {
+				name := ""
+				if c.Call.IsInvoke() {
+					name = nm(c.Call.Method)
+				} else if g := c.Call.StaticCallee(); g != nil {
+					name = g.Name()
 				}
-				se, ok := ce.Fun.(*ast.SelectorExpr)
-				if !ok || se.Sel.Name != "ConstructToken" || len(ce.Args) < 1 {
-					return true
+				if name != "ConstructToken" || len(c.Call.Args) < 1 {
+					return
 				}
-				first := objOfIdent(p, ce.Args[0])
-				if first == nil {
-					return true
+				args := c.Call.Args
+				if !c.Call.IsInvoke() {
+					args = args[1:] // receiver
 				}
+				first := sym.Resolve(args[0], ctx)
 				k++
 				what := fmt.Sprintf("%s.%s: ConstructToken #%d", key, funcDeclName(fd), k)
-				if first == paramObj(p, fd, 0) {
-					r.OK("R04.17", what, ce.Pos(), "first character is LexName's parameter, tested by LexCommon")
-					n++
-					return true
+				n++
+				if first == ssa.Value(lf.Params[1]) {
+					r.OK("R04.17", what, c.Pos(), "first character is LexName's parameter, tested by LexCommon")
+					return
 				}
-				// a local: needs `if !x.IsNameStartChar(c) { …; return }` before the call
-				guarded := false
-				ast.Inspect(fd.Body, func(y ast.Node) bool {
-					is, ok := y.(*ast.IfStmt)
-					if !ok || is.End() > ce.Pos() {
-						return true
+				// a character fetched here: the call is reached only if it passed IsNameStartChar
+				pc := sym.PathCond(c.Parent().Blocks[0], c.Block(), ctx)
+				for cx := ctx; cx != nil && cx.call != nil; cx = cx.parent {
+					site := cx.call.(*ssa.Call)
+					pc = pcAndF(pc, sym.PathCond(site.Parent().Blocks[0], site.Block(), cx.parent))
+				}
+				why := pcImplies(pc, func(a *pcAtom) string {
+					tc, ok := a.v.(*ssa.Call)
+					if !ok || a.x != nil {
+						return ""
 					}
-					u, ok := ast.Unparen(is.Cond).(*ast.UnaryExpr)
-					if !ok || u.Op != token.NOT {
-						return true
-					}
-					c2, ok := ast.Unparen(u.X).(*ast.CallExpr)
-					if !ok || len(c2.Args) != 1 || objOfIdent(p, c2.Args[0]) != first {
-						return true
-					}
-					if s2, ok := c2.Fun.(*ast.SelectorExpr); ok && s2.Sel.Name == "IsNameStartChar" {
-						if l := len(is.Body.List); l > 0 {
-							if _, isRet := is.Body.List[l-1].(*ast.ReturnStmt); isRet {
-								guarded = true
-							}
+					tn, targs := "", tc.Call.Args
+					if tc.Call.IsInvoke() {
+						tn = nm(tc.Call.Method)
+					} else if g := tc.Call.StaticCallee(); g != nil {
+						tn = g.Name()
+						if g.Signature.Recv() != nil && len(targs) > 0 {
+							targs = targs[1:]
 						}
 					}
-					return true
-				})
-				n++
-				r.Check(guarded, "R04.17", what, ce.Pos(), "character tested with IsNameStartChar before the token is built", "the local part of a prefixed name is collected without testing its first character: pfx:1, pfx:-a and pfx:.a are accepted as name tests")
-				return true
+					if tn == "IsNameStartChar" && len(targs) == 1 && sym.Resolve(targs[0], a.ctx) == first {
+						return "start"
+					}
+					return ""
+				}, func(env map[string]bool) bool { return env["start"] })
+				r.Check(why == "", "R04.17", what, c.Pos(), "character tested with IsNameStartChar before the token is built", "the local part of a prefixed name is collected without testing its first character: pfx:1, pfx:-a and pfx:.a are accepted as name tests")
 			})
 		}
 	}
@@ -416,6 +425,44 @@ func c04NoGluedTokens(w *World, r *Report) {
 	n := 0
 	for _, key := range []string{"xpath", "xpath/grammars/expr", "xpath/grammars/leafref", "xpath/grammars/path_eval"} {
 		p := w.Pkg(key)
+		// a function works for name disambiguation when it is a LexName, the
+		// look-ahead itself, or an unexported function of the package that is
+		// only ever called (never taken as a value) and only from such functions
+		memo := map[*ast.FuncDecl]int{}
+		var forNames func(fd *ast.FuncDecl, depth int) bool
+		forNames = func(fd *ast.FuncDecl, depth int) bool {
+			if fd.Name.Name == "LexName" || fd.Name.Name == "NextNonWhitespaceStringIs" {
+				return true
+			}
+			if v, ok := memo[fd]; ok {
+				return v == 1
+			}
+			memo[fd] = 0
+			g, _ := p.TypesInfo.Defs[fd.Name].(*types.Func)
+			if g == nil || g.Exported() || depth > 3 {
+				return false
+			}
+			uses := 0
+			for _, o := range p.TypesInfo.Uses {
+				if o == types.Object(g) {
+					uses++
+				}
+			}
+			calls, ok := 0, true
+			for _, fd2 := range funcDecls(p) {
+				if fd2.Body == nil {
+					continue
+				}
+				if k := len(allCallsTo(p, fd2.Body, g)); k > 0 {
+					calls += k
+					ok = ok && fd2 != fd && forNames(fd2, depth+1)
+				}
+			}
+			if ok && calls > 0 && calls == uses {
+				memo[fd] = 1
+			}
+			return memo[fd] == 1
+		}
 		for _, fd := range funcDecls(p) {
 			if fd.Body == nil || isTestFile(w, fd.Pos()) {
 				continue
@@ -430,7 +477,7 @@ func c04NoGluedTokens(w *World, r *Report) {
 				}
 				n++
 				name := funcDeclName(fd)
-				ok := strings.HasSuffix(name, ".LexName") || strings.HasSuffix(name, ".NextNonWhitespaceStringIs")
+				ok := forNames(fd, 0)
 				r.Check(ok, "R04.18", key+"."+name+" skips whitespace while looking ahead", ce.Pos(), "name disambiguation (§3.7)", "a token-forming function other than LexName looks past whitespace for the rest of its token: two tokens separated by blanks (e.g. '>' '=') are accepted as one, a string XPath rejects")
 			}
 		}
